@@ -280,6 +280,51 @@ func conScenario(stack bool, inner string, preload []int, threads [][]stepSpec, 
 	}
 }
 
+// wrappedBufferedScenario: "over any wrapped queue" - a ConcurrentQueue over a BufferedChannelQueue (whose Take
+// waits for its loader while Poll does not, and whose Put is not its Offer in general) behaves like that queue:
+// three values put, three taken, in order, none reported missing while it sits in the overflow buffer.
+func wrappedBufferedScenario(bound int) *vsched.Scenario {
+	fam := "queue-over-bufferedchannelqueue"
+	return &vsched.Scenario{
+		Name:  "queue-over-bufferedchannelqueue/put3-take3",
+		Bound: bound,
+		Body: func() {
+			inner := fpgo.NewBufferedChannelQueue[int](1, 3, 100)
+			cq := fpgo.NewConcurrentQueue[int](inner)
+			for v := 1; v <= 3; v++ {
+				if err := cq.Put(v); err != nil {
+					vsched.Event("put-failed", v, err.Error())
+				}
+			}
+			for i := 1; i <= 3; i++ {
+				v, err := cq.Take()
+				es := ""
+				if err != nil {
+					es = err.Error()
+				}
+				vsched.Event("took", i, v, es)
+			}
+			inner.Close()
+		},
+		Check: func(r *vsched.Result) []vsched.Failure {
+			fs := e1.Basic("C08", fam, r, nil)
+			if len(fs) > 0 {
+				return fs
+			}
+			if e1.Count(r, "put-failed") > 0 {
+				fs = append(fs, e1.Fail("C08|"+fam+"|add-failed", "Put through the wrapper failed: %v", r.Events))
+			}
+			for i := 1; i <= 3; i++ {
+				if e1.Count(r, "took", i, i, "") != 1 {
+					fs = append(fs, e1.Fail("C08|"+fam+"|wrong-result", "values 1, 2, 3 put through the wrapper; Take #%d did not return %d: %v", i, i, r.Events))
+					break
+				}
+			}
+			return fs
+		},
+	}
+}
+
 func preloadOrder(p []int) []int { return p }
 
 func scenarios(tier string) []*vsched.Scenario {
@@ -347,6 +392,7 @@ func scenarios(tier string) []*vsched.Scenario {
 	} {
 		out = append(out, conScenario(true, "bounded-probe", s.pre, s.ts, b))
 	}
+	out = append(out, wrappedBufferedScenario(1))
 	// a wrapped container that panics on one value (the caller recovers): the wrapper stays usable
 	for _, s := range []sc{
 		{nil, [][]stepSpec{{o(666), o(1)}, {po()}}},
